@@ -334,6 +334,7 @@ class ClassInfo:
     bases: List[str] = field(default_factory=list)  # qualified or external dotted
     decorators: List[str] = field(default_factory=list)
     is_dataclass: bool = False
+    is_namedtuple: bool = False
     methods: Dict[str, FuncInfo] = field(default_factory=dict)
     dispatch: Dict[str, List[FuncInfo]] = field(default_factory=dict)
     own_fields: List[FieldInfo] = field(default_factory=list)  # annotated names
@@ -544,6 +545,25 @@ class Program:
         for nm_, val_ in mod.rebinds.items():
             if counts.get(nm_, 0) != 1:
                 continue
+            if isinstance(val_, ast.Call) and not any(isinstance(a_, ast.Starred) for a_ in val_.args) and \
+                    all(k_.arg is not None for k_ in val_.keywords):
+                # NAME = partial(jnp.einsum, "gij,ij->g", optimize="optimal") / itemgetter(0): a function object made
+                # from literals and dotted names only, fixed at import
+                fn_ = dotted(val_.func)
+                r_ = self.resolve_name(mod, fn_) if fn_ else None
+                if r_ and r_[0] == "ext" and r_[1] in ("functools.partial", "operator.itemgetter", "operator.attrgetter"):
+                    def plain(a_):
+                        if dotted(a_) is not None:
+                            return True
+                        try:
+                            ast.literal_eval(a_)
+                            return True
+                        except Exception:
+                            return False
+                    self_ref = any(isinstance(x_, ast.Name) and x_.id == nm_ for x_ in ast.walk(val_))
+                    if not self_ref and all(plain(a_) for a_ in val_.args) and all(plain(k_.value) for k_ in val_.keywords):
+                        mod.constants[nm_] = val_
+                continue
             try:
                 lit = ast.literal_eval(val_)
             except Exception:
@@ -638,6 +658,11 @@ class Program:
             ci.decorators.append(dn or ast.unparse(d))
             if dn in ("dataclass", "dataclasses.dataclass"):
                 ci.is_dataclass = True
+        for b in node.bases:
+            if (dotted(b) or "").split(".")[-1] == "NamedTuple":
+                # class X(NamedTuple): a: T; b: T = d   -- positional fields with a generated constructor, like a dataclass
+                ci.is_dataclass = True
+                ci.is_namedtuple = True
         n_anon = 0
         for st in node.body:
             if isinstance(st, (ast.FunctionDef, ast.AsyncFunctionDef)):
